@@ -21,6 +21,7 @@ def setup(E):
         ("rank-grows-to-rep", "forall(lambda i: implies(0 <= i and i < len(self.g_rep) and self.g_rep[i] != i, self.rank[i] < self.rank[self.g_rep[i]]), Int)"),
         ("rank-grows-to-parent", "forall(lambda i: implies(0 <= i and i < len(self.g_rep) and self.parent[i] != i, self.rank[i] < self.rank[self.parent[i]]), Int)"),
     ]
+    E._ds_wf = WF
     add = E.registry.add
     add(Contract(
         f"{M}:DisjointSet.__init__", params={"self": "DisjointSet", "count": "Int"},
@@ -61,6 +62,78 @@ def setup(E):
     add(Contract(
         f"{M}:DisjointSet.__len__", params={"self": "DisjointSet"}, returns="Int",
         ensures=["result == self.groups"], props=["C20"]))
+
+
+def _to_list(E):
+    """to_list reports exactly the classes of the partition: every element once, each group inside one class, no class split."""
+    add = E.registry.add
+    WF = E._ds_wf
+    N = "len(self.g_rep)"
+    KEEP = [("partition-unchanged", "self.g_rep == old(self.g_rep)"), ("rank-groups-unchanged", "self.rank == old(self.rank) and self.groups == old(self.groups)")]
+    add(Contract(
+        f"{M}:DisjointSet.to_list", params={"self": "DisjointSet"}, returns="Arr[Seq[Int]]",
+        requires=WF + [("list-length-non-negative", "len(self.g_rep) >= 0")],
+        ensures=WF + KEEP + [
+            ("groups-non-empty", "forall(lambda j: implies(0 <= j and j < len(result), len(result[j]) >= 1), Int)"),
+            ("members-are-elements", f"forall(lambda j, a: implies(0 <= j and j < len(result) and 0 <= a and a < len(result[j]), 0 <= result[j][a] and result[j][a] < {N}), Int, Int)"),
+            ("members-listed-once", "forall(lambda j, a, b: implies(0 <= j and j < len(result) and 0 <= a and a < b and b < len(result[j]), result[j][a] < result[j][b]), Int, Int, Int)"),
+            ("group-within-one-class", "forall(lambda j, a: implies(0 <= j and j < len(result) and 0 <= a and a < len(result[j]), self.g_rep[result[j][a]] == self.g_rep[result[j][0]]), Int, Int)"),
+            ("classes-not-split", "forall(lambda j1, j2: implies(0 <= j1 and j1 < j2 and j2 < len(result), self.g_rep[result[j1][0]] != self.g_rep[result[j2][0]]), Int, Int)"),
+            ("every-element-listed", f"forall(lambda x: implies(0 <= x and x < {N}, exists(lambda j: 0 <= j and j < len(result) and (x in result[j]), Int)), Int)"),
+        ],
+        modifies=["self.parent"],
+        locals={"result": "Arr[Seq[Int]]"},
+        loops={0: LoopSpec(header="for i in range(len(self.parent))", index="k", length="n", invariants=WF + KEEP + [
+            ("buckets", f"len(result) == {N} and n == {N}"),
+            ("bucket-members", f"forall(lambda r, a: implies(0 <= r and r < {N} and 0 <= a and a < len(result[r]), 0 <= result[r][a] and result[r][a] < k and self.g_rep[result[r][a]] == r), Int, Int)"),
+            ("bucket-increasing", f"forall(lambda r, a, b: implies(0 <= r and r < {N} and 0 <= a and a < b and b < len(result[r]), result[r][a] < result[r][b]), Int, Int, Int)"),
+            ("seen-are-listed", "forall(lambda x: implies(0 <= x and x < k, x in result[self.g_rep[x]]), Int)"),
+        ])},
+        props=["C20"]))
+
+
+    # the same contract evaluated at run time on the real method (cross-check of the proof against CPython; concretiser)
+    import itertools
+    from pyvc.driver import Scope
+    from pyvc import native
+
+    def gen(tier, rng):
+        top = 4 if tier != "thorough" else 5
+        for n in range(0, top + 1):
+            pairs = [[a, b] for a in range(n) for b in range(n)]
+            for r in range(0, 3 if tier != "thorough" else 4):
+                for us in itertools.product(pairs, repeat=r):
+                    yield {"n": n, "unions": [list(u) for u in us]}
+        for _ in range(200 if tier != "thorough" else 2000):
+            n = rng.randrange(1, 13)
+            yield {"n": n, "unions": [[rng.randrange(n), rng.randrange(n)] for _ in range(rng.randrange(0, 12))]}
+
+    def build(recipe, src_root):
+        mod = native.import_real(M, src_root)
+        ds = mod.DisjointSet(recipe["n"])
+        for a, b in recipe["unions"]:
+            ds.unite(a, b)
+
+        def root(i):
+            while ds.parent[i] != i:
+                i = ds.parent[i]
+            return i
+
+        ds.g_rep = [root(i) for i in range(recipe["n"])]  # ghost field of the contract
+        u = native.Universe()
+        u.domains["Int"] = list(range(-1, recipe["n"] + 2))
+        return (lambda self: self.to_list()), {"self": ds}, u
+
+    E.registry.scopes[f"{M}:DisjointSet.to_list"] = Scope(
+        gen, build, describe="all union histories of length <= 2 (3 thorough) on <= 4 (5) elements, 200 (2000) random histories on <= 12 elements")
+
+
+_setup_contracts0 = setup
+
+
+def setup(E):  # noqa: F811
+    _setup_contracts0(E)
+    _to_list(E)
 
 
 _setup_contracts = setup
